@@ -377,7 +377,59 @@ class C15:
     TITLE = 'HoloPy objects survive save -> load unchanged'
     TIERS = {'quick': {'budget_s': 60.0}}
 
+    def generate_sweep(self, rng, tier):
+        """Exhaustive single-fault placement for one object: every fault kind
+        at every tracked call index of a save, and of a load of an
+        acknowledged file."""
+        b = Builder(rng)
+        g = SpecGen(rng)
+        spec, kind = g.any()
+        spec = _fix_exprs(spec)
+        nidx = 7
+        n = 0
+        obj = None
+        for phase in ('save', 'load'):
+            for fk in (1, 2, 3, 4, 5):
+                if phase == 'load' and fk == 5:
+                    continue
+                for idx in range(nidx):
+                    if obj is None:
+                        obj = b.emit('build', {'spec': spec}, store='obj',
+                                     tags={'k': 'build/' + kind,
+                                           'kind': kind, 'plain': False})
+                    n += 1
+                    path = 'sweep_%d.yaml' % n
+                    if phase == 'save':
+                        b.emit('arm_io_fault', {'kind': fk, 'index': idx,
+                                                'err': rng.choice(ERRNOS)})
+                        b.emit('save_path', {'obj': obj, 'path': path},
+                               tags={'k': 'save', 'save': True,
+                                     'kind': kind})
+                        b.emit('load_path', {'path': path},
+                               tags={'k': 'load', 'load': True,
+                                     'kind': kind})
+                    else:
+                        b.emit('save_path', {'obj': obj, 'path': path},
+                               tags={'k': 'save', 'save': True,
+                                     'kind': kind})
+                        b.emit('arm_io_fault', {'kind': fk, 'index': idx,
+                                                'err': rng.choice([5, 13,
+                                                                   24])})
+                        b.emit('load_path', {'path': path},
+                               tags={'k': 'load', 'load': True,
+                                     'kind': kind})
+                        b.emit('load_path', {'path': path},
+                               tags={'k': 'load', 'load': True,
+                                     'kind': kind, 'again': True})
+                    if fk in (4, 5):
+                        # the node may have died: the object table is gone
+                        obj = None
+        return {'config': {'faults': {'io': True}, 'mode': 'fault-sweep',
+                           'node': {}}, 'events': b.events}
+
     def generate(self, rng, tier='quick'):
+        if rng.random() < (0.04 if tier == 'quick' else 0.3):
+            return self.generate_sweep(rng, tier)
         b = Builder(rng)
         faulty = rng.random() < 0.45
         faults = {'F1': rng.random() < 0.5, 'io': faulty,
